@@ -1556,8 +1556,11 @@ iwrc jbn_get(struct jbl_node *node, const char *key, int index, struct jbl_node 
   switch (node->type) {
     case JBV_OBJECT:
       if (key) {
+        // node keys are counted by klidx: a tree made by jbl_to_node(.., clone_strings = false, ..) borrows them from
+        // the binn buffer, where no terminator follows the key
+        const int klen = (int) strlen(key);
         for (struct jbl_node *n = node->child; n; n = n->next) {
-          if (n->key && strcmp(n->key, key) == 0) {
+          if (n->key && n->klidx == klen && memcmp(n->key, key, (size_t) klen) == 0) {
             *res = n;
             return 0;
           }
